@@ -86,6 +86,10 @@ type PropDef struct {
 	IgnorePanics bool
 	// ShrinkExecs / ShrinkSeconds bound the minimisation of one violation (0 = 300 executions / 90 s).
 	ShrinkExecs, ShrinkSeconds int
+	// OverrunSig: if set, exhausting the step budget (Config.MaxSteps) is a violation with
+	// this signature instead of a harness error. Only for properties whose statement forbids
+	// unbounded work on bounded input (C15); the step count is deterministic, so it replays.
+	OverrunSig string
 	// Rule describes generation and what makes a case non-trivial (for evidence).
 	Rule string
 	// Real / Stub components (for evidence).
@@ -120,6 +124,7 @@ var (
 
 // execute runs one scenario under one tape.
 func execute(p *PropDef, tape *simrt.Tape, tier, variant string) *Outcome {
+	raceLogTake() // drop anything reported outside a run
 	simos.Reset()
 	simldb.Reset()
 	for i := 0; i < 64; i++ {
@@ -154,12 +159,22 @@ func execute(p *PropDef, tape *simrt.Tape, tier, variant string) *Outcome {
 		out.HarnessErr = res.HarnessEr
 	}
 	if res.Overrun {
-		out.HarnessErr = "step budget exceeded (possible livelock)"
+		if p.OverrunSig != "" {
+			if !c.Failed() { // the scenario may already have reported it with more detail
+				c.Fail(p.OverrunSig, "the step budget of the run was exhausted: some node task kept running without ever blocking (steps %d)", res.Steps)
+			}
+		} else {
+			out.HarnessErr = "step budget exceeded (possible livelock)"
+		}
 	}
 	if !p.IgnorePanics {
 		for _, pn := range res.Panics {
 			c.Fail(p.ID+"/panic/"+panicSite(pn.Stack), "panic in task %s (node %d): %s\ncontext: %s\n%s", pn.Task, pn.Node, pn.Value, c.Context, trimStack(pn.Stack))
 		}
+	}
+	for _, rr := range raceLogTake() {
+		c.Fail(p.ID+"/race/"+rr.Key, "the race detector reports an unsynchronised access pair under this schedule:\n%s", rr.Text)
+		c.Probe("race_reports")
 	}
 	if p.Post != nil && out.HarnessErr == "" {
 		func() {
@@ -443,6 +458,7 @@ func watchdog(limit time.Duration, what *string) chan struct{} {
 func workerMain(t *testing.T) {
 	theT = t
 	setupLogging()
+	raceLogInit()
 	if rp := os.Getenv("VERIF_REPLAY"); rp != "" {
 		replayMain(t, rp)
 		return
@@ -547,17 +563,26 @@ func workerMain(t *testing.T) {
 			// new signature: minimise and write a replay file
 			streams := tape.Streams()
 			stop := watchdog(900*time.Second, &what)
-			maxExec, maxDur := 300, 90*time.Second
+			maxEx, maxDur := 300, 90*time.Second
+			if tier == "quick" {
+				maxEx, maxDur = 120, 20*time.Second
+			}
 			if p.ShrinkExecs > 0 {
-				maxExec = p.ShrinkExecs
+				maxEx = p.ShrinkExecs
 			}
 			if p.ShrinkSeconds > 0 {
 				maxDur = time.Duration(p.ShrinkSeconds) * time.Second
 			}
-			if knownSigs[v.Sig] {
-				maxExec = 0 // a committed finding with its own minimised replay: do not minimise again
+			if rem := budget - time.Since(t0); rem < maxDur {
+				maxDur = rem
+				if maxDur < 3*time.Second {
+					maxDur = 3 * time.Second
+				}
 			}
-			small, execs := shrink(p, tier, variant, runSeed, streams, v.Sig, maxExec, maxDur)
+			if knownSigs[v.Sig] {
+				maxEx = 0 // a committed finding with its own minimised replay: do not minimise again
+			}
+			small, execs := shrink(p, tier, variant, runSeed, streams, v.Sig, maxEx, maxDur)
 			close(stop)
 			// final confirmation of the minimised tape in this process
 			fin := execute(p, simrt.ReplayTape(runSeed, small), tier, variant)
@@ -681,4 +706,32 @@ func replayMain(t *testing.T, path string) {
 		}
 	}
 	os.Exit(code)
+}
+
+// runSub executes f as a further bubble (used by Post checks that need reference
+// executions, e.g. the serial orders of C19). The sub-run replays the generation streams
+// of the parent run, so it sees the same workload at the same simulated instants.
+func runSub(parent *Ctx, cfg simrt.Config, f func(c *Ctx)) (*Ctx, simrt.RunResult) {
+	simos.Reset()
+	simldb.Reset()
+	for i := 0; i < 64; i++ {
+		simrt.SetMapMode(i, simrt.MapSorted)
+	}
+	resetGlobals()
+	tape := simrt.ReplayTape(parent.T.Seed, parent.T.Streams())
+	c := &Ctx{T: tape, Prop: parent.Prop, Tier: parent.Tier, Var: parent.Var, Faults: map[string]int64{}, Probes: map[string]int64{},
+		States: map[uint64]struct{}{}, Keep: map[string]interface{}{}}
+	res := simrt.Run(theT, tape, cfg, func(w *simrt.World) {
+		c.W = w
+		defer func() {
+			for i := len(c.Cleanups) - 1; i >= 0; i-- {
+				func() {
+					defer func() { recover() }()
+					c.Cleanups[i]()
+				}()
+			}
+		}()
+		f(c)
+	})
+	return c, res
 }
